@@ -28,7 +28,7 @@ def _w(p):
 
 CHECK = Check(
     "C05",
-    props_modules=["OW.Props.C05", "OW.Props.C05Facts"],
+    props_modules=["OW.Props.C05", "OW.Props.C05Facts", "OW.Props.C05Addr"],
     families=[_w(1), _w(2), _w(4), _w(16),
               # every model with a case generator (no kernel model needed): each case at GOMAXPROCS 1, 2, 4, 16 in one worker
               Family("WP", args=["n=24"], compare=False)],
@@ -55,7 +55,9 @@ CHECK = Check(
         "vector, Shape aliases the dimension vector, other methods only read (the array semantics is C01/C02's subject); writes that a "
         "kernel makes THROUGH a view it was handed (e.g. into an input view) are outside the closure-level facts — covered by C04's "
         "frame oracle (inputs/parameters unchanged) and the race detector only",
-        "memory is modelled at row granularity (address = state row i / output rows of cell i); element-level frames are C04's cellStep_frame",
+        "memory is modelled at row granularity in OW.Props.C05 (address = state row i / output rows of cell i; element-level frames are C04's "
+        "cellStep_frame) and at storage-position granularity in OW.Props.C05Addr (address = (storage id, position) of the OW/Nd heap; the step is the "
+        "view-level model cellStepNd, whose agreement with the real template is C04's correspondence, not re-checked here)",
         "the ow-sim writer protocol (written exactly once, purge only after written and links applied) is C07's subject; here only the "
         "goroutine-per-model launch/join skeleton of runGeneration is covered (facts + join_complete); per-model footprints (each "
         "model type owns its generation object) are not proved here",
@@ -73,9 +75,11 @@ CHECK = Check(
         "KF-C05-GR4J-InitialiseStates-row-width / KF-C05-Lag-InitialiseStates-row-width, scope race:<M>:InitialiseStates-row-width), not a caller error",
         "STORAGE DISJOINTNESS (the hypotheses of C04Nd.views_disjoint / write_invisible_to_other_cells): the states, outputs, parameters and inputs "
         "arrays live in pairwise different storages (states != outputs, states/outputs != parameters/inputs; parameters and inputs may share one), "
-        "non-negative Impl offsets, extents >= 1. The addresses `st i`, `out i` of OW/Sim/CellTasks.lean are ASSERTED to be distinct memory for "
-        "distinct i; that they are distinct STORAGE POSITIONS is derived only at the view level (C04Nd.views_disjoint) under these hypotheses and is "
-        "not composed with the interleaving theorems in Lean",
+        "non-negative Impl offsets, extents >= 1 (Cfg.OK / Cfg.Sep of OW/Proofs/C05Addr.lean). The addresses `st i`, `out i` of OW/Sim/CellTasks.lean are "
+        "ASSERTED to be distinct memory for distinct i; that they are distinct STORAGE POSITIONS is DERIVED under these hypotheses "
+        "(C05Addr.cells_write_sets_disjoint, from C04Nd.views_disjoint) and composed with the interleaving theorem over addresses (storage id, position) "
+        "(C05Addr.cells_any_interleaving_addr); together with ROW WIDTH (Cfg.OK.fits: the kernel's state vector fits the cell's row, its series the "
+        "output rows) they are hypotheses of every theorem of OW.Props.C05Addr",
         "T4: unbuffered channel, every goroutine sends exactly once after finishing, the parent receives exactly N times; "
         "T4' (wg_join_complete): Add(N) before the launches, every goroutine calls Done() exactly once after finishing, Wait() returns "
         "only at counter 0 (sync.WaitGroup trusted) — established for the source by the facts: sendOk/launchOk/recvOk",
@@ -86,10 +90,20 @@ CHECK = Check(
     partial=[
         "partial by nature: schedule independence is proved for the MODEL's footprints; DRF ⇒ sequential consistency, channel "
         "happens-before and the scheduler are trusted (Go memory model)",
-        "granularity: in OW/Sim/CellTasks.lean each cell is ONE atomic step with the asserted footprint [st i, out i]; "
-        "refined_cells_any_interleaving removes the atomicity (ANY splitting of a cell's goroutine into steps with footprints inside its own rows whose "
-        "sequential effect is cellStepM ends, under every interleaving, in the sequential memory), but the footprints stay row-level addresses that are "
-        "asserted, not derived from the strided views' storage positions (that derivation is C04Nd.views_disjoint, not composed here)",
+        "granularity / footprints: in OW/Sim/CellTasks.lean each cell is ONE atomic step with the asserted footprint [st i, out i]; "
+        "refined_cells_any_interleaving removes the atomicity at row level (ANY splitting of a cell's goroutine into steps with footprints inside its own "
+        "rows whose sequential effect is cellStepM). NOW PROVED (OW.Props.C05Addr, specs with scalar parameters only = the scope of "
+        "C04Nd.wrapperNd_refines): the footprint is DERIVED at address level (storage id, position) for the goroutine body of the view-level model "
+        "OW.Sim.WrapperNd.cellStepNd — cell_step_footprint (writes inside row i of states + rows (i,.,.) of outputs = C04Nd.WriteFoot, the positions "
+        "cell_views_states/_outputs show the views to alias; reads inside that + the parameters/inputs windows, which the step leaves unchanged: "
+        "cell_step_leaves_readonly), cells_write_sets_disjoint (from C04Nd.views_disjoint), and composed with disjoint_interleaving over these addresses: "
+        "cells_any_interleaving_addr / cells_schedule_independent_addr (every interleaving / permutation of the N per-cell steps ends in the heap of the "
+        "sequential runNd), cells_any_interleaving_addr_runCells (which denotes runCells' result, via runNd_refines), addr_footprint_refines_rows (the map "
+        "address -> st i / out i sends the derived footprints into the asserted ones). REMAINS: (a) at address level the cell is still ONE atomic step "
+        "(the element-by-element Get1/Set1 splitting of cellStepNd into steps with per-element footprints is not modelled; at row level "
+        "refined_cells_any_interleaving covers any splitting); (b) wrappers with table parameters (C04NdTables) and the packed-state write-back "
+        "(ApplySlice: GR4J, Lag) have no address-level step — for them the footprint stays the asserted row-level one + run facts + GOMAXPROCS sweep; "
+        "(c) C-backed roots (isC) are outside RootOn; the worker-pool form is pool_cells_any_interleaving_addr",
         "per-model-goroutine footprints of ow-sim's runGeneration (each model type owns its generation object): NOT proved here — only the launch/join "
         "skeleton (facts + join_complete / wg_join_complete)",
         "writer goroutine vs main loop of ow-sim (which generation objects the writer reads while the main loop runs later generations): not in this "
@@ -108,7 +122,9 @@ META = dict(
          "interleaving of the cells yields exactly `runCells` (the sequential cell-by-cell result); refined_cells_any_interleaving: the same "
          "when a cell's goroutine is split into ANY number of steps whose footprints stay inside its own rows (no atomicity of the cell step); workers_disjoint / "
          "pool_cells_any_interleaving: the same for every bounded worker pool over the cells (a task is a worker, its footprint the union of "
-         "its cells' rows); join_complete (+ deadlock freedom, termination in exactly 2N steps) for the doneChan pattern and "
+         "its cells' rows); OW.Props.C05Addr: the same at ADDRESS level — cell_step_footprint / cells_write_sets_disjoint / "
+         "cells_any_interleaving_addr: the footprint of the view-level per-cell step (storage id, position) is derived from the views' storage positions "
+         "(C04Nd) and every interleaving ends in the heap of the sequential runNd; join_complete (+ deadlock freedom, termination in exactly 2N steps) for the doneChan pattern and "
          "wg_join_complete for the sync.WaitGroup pattern, for every N. The footprints are tied to the source by regenerated "
          "go/ast facts checked in Lean (current_run_facts_ok) and by vectorised runs at GOMAXPROCS 1/2/4/16 against the model.",
     design_ref="DESIGN.md §6 C05",
